@@ -249,3 +249,72 @@ def write_evidence(pid, ctx, report, rule, assumptions, violations, known_hits, 
         f.write("\n")
     os.replace(tmp, path)
     return path
+
+
+# --------------------------------------------------------------------------------------------
+# Hypothesis driver: collect all failure buckets first, then shrink each bucket separately
+# --------------------------------------------------------------------------------------------
+
+def hyp_search(strategy, predicate, rep, seed, max_examples, classify=None, shrink=True, max_shrink_keys=3,
+               deadline_ts=None):
+    """predicate(case) -> list of failures [(key, msg, extra_dict)], case = plain data drawn from `strategy`.
+    classify(case) -> (nontrivial_key or None, {hist table: key}) .
+    Pass 1 generates max_examples cases and records every failure (no early stop, so one shallow defect does
+    not hide the others).  Pass 2, per failure key, lets Hypothesis shrink to a minimal case of that key."""
+    import hypothesis
+    from hypothesis import given, settings, HealthCheck, Phase
+
+    found = {}      # key -> (size, case, msg, extra)
+    state = {"n": 0}
+
+    def note_failures(case, fails):
+        for key, msg, extra in fails:
+            size = len(json.dumps(case, default=str))
+            if key not in found or size < found[key][0]:
+                found[key] = (size, case, msg, extra or {})
+
+    base = dict(database=None, deadline=None, report_multiple_bugs=False,
+                suppress_health_check=list(HealthCheck), derandomize=False)
+
+    @hypothesis.seed(seed)
+    @settings(max_examples=max_examples, phases=[Phase.generate], **base)
+    @given(strategy)
+    def collect(case):
+        if deadline_ts is not None and time.time() > deadline_ts:
+            rep.truncated = True
+            return
+        fails = predicate(case)
+        state["n"] += 1
+        nt, tables = classify(case) if classify else (None, {})
+        rep.case(nt, case if (state["n"] % 97 == 1) else None)
+        for t, k in tables.items():
+            rep.count(t, k)
+        if fails:
+            note_failures(case, fails)
+
+    collect()
+
+    if shrink and found:
+        for key in sorted(found, key=lambda k: found[k][0])[:max_shrink_keys]:
+            class _Hit(Exception):
+                pass
+
+            @hypothesis.seed(seed)
+            @settings(max_examples=max_examples, phases=[Phase.generate, Phase.shrink], **base)
+            @given(strategy)
+            def hunt(case, key=key):
+                fails = [f for f in predicate(case) if f[0] == key]
+                rep.evaluations += 1
+                if fails:
+                    note_failures(case, fails)
+                    raise _Hit()
+
+            try:
+                hunt()
+            except _Hit:
+                pass
+            except Exception:  # flaky / other hypothesis complaints: keep what pass 1 found
+                pass
+    for key, (size, case, msg, extra) in found.items():
+        rep.fail(key, case, msg, **extra)
+    return rep
